@@ -70,7 +70,7 @@ func runReplay(path, out string, c *collector, m *meta) {
 		o := readWith(vcaseInput(rp.VC, rp.Fam, rp.Len, rp.Seed), nil)
 		fmt.Printf("replay v2: ok=%v consumed=%d err=%q\n", o.OK, o.Consumed, o.Err)
 		m.Kinds = append(m.Kinds, writeKind(out, "vcases", "vcase", "vcase_model_ok", "vcase_verdict",
-			[]string{coqVcase(rp.VC, rp.Fam, rp.Len, rp.Seed, o)}, []any{vcaseJSON{"v2", rp.VC, rp.Fam, rp.Len, rp.Seed}}, 4000, ""))
+			[]string{coqVcase(rp.VC, rp.Fam, rp.Len, rp.Seed, o)}, []any{vcaseJSON{"v2", rp.VC, rp.Fam, rp.Len, rp.Seed, o.Err}}, 4000, ""))
 	case "token":
 		m.Kinds = append(m.Kinds, writeKind(out, "tcases", "tcase", "tcase_model_ok", "tcase_verdict",
 			[]string{tokenCase(string(in))}, []any{map[string]string{"kind": "token", "in": rp.In}}, 2500, ""))
